@@ -3,6 +3,7 @@ from typing import Optional, cast
 from ..expressions import (
     AddExpression,
     ConstantExpression,
+    DivideExpression,
     EqualExpression,
     MathExpression,
     MultiplyExpression,
@@ -64,8 +65,9 @@ class RestateSubtractionRule(BaseRule):
                 # 3 - -2 + -u^2
                 return _OP_SUBTRACTION_NEGATIVE_CONST
 
+            # Only a product or quotient is negated by flipping its leading constant
             if (
-                node.right is not None
+                isinstance(node.right, (MultiplyExpression, DivideExpression))
                 and isinstance(node.right.left, ConstantExpression)
                 and node.right.left.value is not None
             ):
